@@ -94,10 +94,18 @@ class CellParser(MCNP_Parser):
         return syntax_node.GeometryTree("intersection", nodes, "*", left, right)
 
     # handle implicit intersection of: ( )( )
-    @_("geometry_term geometry_factory")
+    @_("geometry_term geometry_factory", "geometry_term COMPLEMENT geometry_factory")
     def geometry_term(self, p):
         left = p.geometry_term
         right = p.geometry_factory
+        # a complement may follow a closing parenthesis directly: (1:2)#3
+        if hasattr(p, "COMPLEMENT"):
+            right = syntax_node.GeometryTree(
+                "complement",
+                {"operator": syntax_node.PaddingNode(p.COMPLEMENT), "left": right},
+                "#",
+                right,
+            )
         nodes = {"left": left, "operator": syntax_node.PaddingNode(), "right": right}
         return syntax_node.GeometryTree("intersection", nodes, "*", left, right)
 
